@@ -36,6 +36,8 @@ def sym_meta(run, name):
 
 
 def sym_tree(run, shape, S, path="t"):
+    if isinstance(shape, tuple) is False and not isinstance(shape, (STUB, TOK)) and hasattr(shape, "type"):
+        shape = TOK(shape.type, shape.value)      # TOK objects of sibling modules
     if isinstance(shape, STUB):
         r = getattr(S, shape.arg)
         return VObj(lark.Tree, {"data": VStr(str, "stub"), "children": VList(list, [r]),
@@ -75,9 +77,14 @@ class StubEvaluator(ev.Evaluator):
 
 def sym_activation(run, functions=None):
     fdict = functions if functions is not None else ev.base_functions
-    pairs = [[VStr(str, k), se.lift(v)] for k, v in fdict.items()]
-    return VObj(ev.Activation, {"functions": VDict(dict, pairs), "package": NONE,
-                                "identifiers": VObj(ev.NameContainer, {"parent": NONE})}, label="activation")
+    import collections
+    base = VDict(dict, [[VStr(str, k), se.lift(v)] for k, v in ev.base_functions.items()])
+    maps = [base]
+    if functions is not None:
+        maps = [VDict(dict, [[VStr(str, k), se.lift(v)] for k, v in functions.items()]), base]
+    fmap = VObj(collections.ChainMap, {"maps": VList(list, maps)}, label="functions")
+    return VObj(ev.Activation, {"functions": fmap, "package": NONE,
+                                "identifiers": VDict(ev.NameContainer, [], {"parent": NONE})}, label="activation")
 
 
 def sym_evaluator(run, functions=None):
@@ -90,7 +97,10 @@ def _visit_tree_override(run, self, tree):
     attrs = getattr(tree, "attrs", None)
     if attrs is not None and "$result" in attrs:
         run.ghost.setdefault("visited", []).append(tree)
-        return attrs["$result"]
+        r = attrs["$result"]
+        if callable(r) and not isinstance(r, se.SV):
+            return r(run)           # a fresh arbitrary outcome at every visit (macro bodies)
+        return r
     return run.call_ast(run.engine.vfunc_of(lark.visitors.Interpreter._visit_tree), [self, tree], {})
 
 
